@@ -154,7 +154,7 @@ pub fn run(opts: &Opts) -> Run {
             let ov = offset as u64 + 3;
             let code = 63 - ov.leading_zeros() as u8;
             let lits = rng.bytes(pre);
-            let blk = Block::Comp(SeqBlock { lits: Lit::Raw(lits), ll_code: pre.min(15) as u8, ml_code, of_code: code, seqs: vec![(0, 0, (ov - (1 << code)) as u32)], count_bytes: None, modes: None, trailer: vec![] });
+            let blk = Block::Comp(SeqBlock { lits: Lit::Raw(lits), ll_code: pre.min(15) as u8, ml_code, of_code: code, seqs: vec![(0, 0, (ov - (1 << code)) as u32)], count_bytes: None, modes: None, repeat: [false; 3], trailer: vec![] });
             let mut f = Frame::simple(vec![blk], *rng.pick(&[0u8, 0x10, 0x28]), rng.chance(1, 2));
             f.dict_id = Some((3, *id));
             let (bytes, expected) = synth::serialize(&f, content);
